@@ -1,3 +1,4 @@
 #!/bin/bash
-# development queue: run checks one after the other in the 'dev' build directory, logs in /tmp/dev-<id>.log
-for id in "$@"; do VERIF_KEY=dev timeout 7200 /verif/check $id > /tmp/dev-$id.log 2>&1; echo "$id exit=$?" >> /tmp/devq.done; done
+# development queue: devq.sh <key> <ids...> runs checks one after the other in build/<key>, logs in /tmp/dev-<id>.log
+key=$1; shift
+for id in "$@"; do VERIF_NO_PLAYBACK=1 VERIF_KEY=$key timeout 7200 /verif/check $id > /tmp/dev-$id.log 2>&1; echo "$id exit=$?" >> /tmp/devq.done; done
